@@ -8,6 +8,7 @@ import HydroVerif.Lemmas.C07Grid
 import HydroVerif.Lemmas.C06Table
 import HydroVerif.Lemmas.C06Bfs
 import Mathlib.Tactic.Ring
+import Mathlib.Tactic.LinearCombination
 import Mathlib.Data.List.Perm.Subperm
 
 namespace HydroVerif.C06
@@ -1299,5 +1300,146 @@ theorem first_hit_of_mem_area {o : Int} {inlets A : List Int}
   · have : k₁ - 1 + 1 = k₁ := by omega
     rw [this]; exact hk₁.2
   · intro j hj1 hjk; exact hmin j hj1 (by omega)
+
+
+/-! ### on a finite grid the search stops unless a cycle passes through the outlet -/
+
+/-- a walk of more steps than the grid has cells visits a cell twice: the outlet lies on a cycle -/
+theorem cycle_of_long_walk {inlets : List Int} {o c : Int}
+    (hw : Reaches codes g inlets ((g.nrows * g.ncols).toNat + 1) c o) :
+    ∃ p, 1 ≤ p ∧ Reaches codes g inlets p o o := by
+  classical
+  set N := (g.nrows * g.ncols).toNat with hN
+  -- the first N+1 cells of the walk are cells of the grid
+  have hcell : ∀ i, i ≤ N → validCell g.nrows g.ncols (chainCell codes g i c) = true ∧
+      Reaches codes g inlets (N + 1 - i) (chainCell codes g i c) o := by
+    intro i hi
+    obtain ⟨x, hx1, hx2⟩ := walk_split (downStep codes g inlets) i (N + 1 - i) c o
+      (by have : i + (N + 1 - i) = N + 1 := by omega
+          rw [this]; exact hw)
+    have hxe := walk_eq_chainCell i c x hx1
+    subst hxe
+    have hx2' : Reaches codes g inlets ((N - i) + 1) (chainCell codes g i c) o := by
+      have : N + 1 - i = (N - i) + 1 := by omega
+      rw [← this]; exact hx2
+    exact ⟨(reaches_succ_iff.1 hx2').1, hx2⟩
+  -- two of them coincide
+  have hdup : ∃ i j, i < j ∧ j ≤ N ∧ chainCell codes g i c = chainCell codes g j c := by
+    by_contra hno
+    have hinj : ((List.range (N + 1)).map fun i => chainCell codes g i c).Nodup := by
+      rw [List.nodup_map_iff_inj_on List.nodup_range]
+      intro i hi j hj heq
+      have hi' := List.mem_range.1 hi
+      have hj' := List.mem_range.1 hj
+      by_contra hne
+      rcases Nat.lt_or_gt_of_ne hne with h | h
+      · exact hno ⟨i, j, h, by omega, heq⟩
+      · exact hno ⟨j, i, h, by omega, heq.symm⟩
+    have hsub : ∀ x ∈ ((List.range (N + 1)).map fun i => chainCell codes g i c),
+        x ∈ (List.range N).map (fun n : Nat => (n : Int)) := by
+      intro x hx
+      rw [List.mem_map] at hx
+      obtain ⟨i, hi, rfl⟩ := hx
+      have hv := (validCell_iff.1 (hcell i (by have := List.mem_range.1 hi; omega)).1)
+      rw [List.mem_map]
+      refine ⟨(chainCell codes g i c).toNat, List.mem_range.2 ?_, by omega⟩
+      omega
+    have := length_le_of_nodup_subset hinj hsub
+    simp at this
+  obtain ⟨i, j, hij, hjN, heq⟩ := hdup
+  obtain ⟨_, hri⟩ := hcell i (by omega)
+  obtain ⟨_, hrj⟩ := hcell j hjN
+  rw [heq] at hri
+  -- same cell, two walk lengths to the outlet: the difference is a cycle through the outlet
+  refine ⟨j - i, by omega, ?_⟩
+  have hsum : N + 1 - i = (N + 1 - j) + (j - i) := by omega
+  unfold Reaches at hri hrj ⊢
+  rw [hsum, Bfs.walk_add, hrj] at hri
+  simpa using hri
+
+/-- no cycle through the outlet: some layer is empty -/
+theorem exists_stop_of_no_cycle (ht : TableOK codes) (hc : 0 < g.ncols) {inlets : List Int} {o : Int}
+    (hno : ¬ ∃ p, 1 ≤ p ∧ Reaches codes g inlets p o o) :
+    ∃ n, Bfs.layer (upStep codes g inlets) o (n + 1) = [] := by
+  by_contra hall
+  have hne : Bfs.layer (upStep codes g inlets) o ((g.nrows * g.ncols).toNat + 1) ≠ [] :=
+    fun h => hall ⟨_, h⟩
+  obtain ⟨c, hcm⟩ := List.exists_mem_of_ne_nil _ hne
+  have inv := upStep_downStep_inv (g := g) ht hc inlets
+  have hw := (Bfs.mem_layer_iff (upStep codes g inlets) (downStep codes g inlets) inv o _ c).1 hcm
+  exact hno (cycle_of_long_walk hw)
+
+
+/-! ### a chain that leaves the grid (or ends in a sink) before the outlet -/
+
+/-- the `while` loop on a chain that, after `j` steps none of which enters the outlet, stands on a cell `x`
+draining nowhere, with at least `j+1` iterations left: it stops there with `idxcell_down < 0` -/
+theorem fpLoop_exit (outlet : Int) (diag : Int → Int → Bool) : ∀ (j rem : Nat) (s : FpState) (x : Int),
+    Reaches codes g [] j s.up x → validCell g.nrows g.ncols x = true →
+    (∀ i, 1 ≤ i → i ≤ j → chainCell codes g i s.up ≠ outlet) →
+    downstreamCell codes g x < 0 → j + 1 ≤ rem →
+    (fpLoop codes g outlet diag rem s).down = downstreamCell codes g x := by
+  intro j
+  induction j with
+  | zero =>
+    intro rem s x hr hv _ hneg hrem
+    obtain ⟨rem', rfl⟩ : ∃ r, rem = r + 1 := ⟨rem - 1, by omega⟩
+    have hx : s.up = x := reaches_zero_iff.1 hr
+    subst hx
+    have hds : downstream codes g s.up = .ok (downstreamCell codes g s.up) := by
+      unfold downstream; rw [if_pos hv]
+    simp only [fpLoop, hds, hneg, if_true]
+  | succ j ih =>
+    intro rem s x hr hv hno hneg hrem
+    obtain ⟨rem', rfl⟩ : ∃ r, rem = r + 1 := ⟨rem - 1, by omega⟩
+    obtain ⟨hvu, _, h0, hr'⟩ := reaches_succ_iff.1 hr
+    have hds : downstream codes g s.up = .ok (downstreamCell codes g s.up) := by
+      unfold downstream; rw [if_pos hvu]
+    have hn : ¬ downstreamCell codes g s.up < 0 := by omega
+    have hne : downstreamCell codes g s.up ≠ outlet := hno 1 (le_refl 1) (by omega)
+    simp only [fpLoop, hds, hn, hne, if_false]
+    apply ih rem' _ x hr' hv _ hneg (by omega)
+    intro i hi1 hij
+    exact hno (i + 1) (by omega) (by omega)
+
+/-- **flow path of a cell whose chain leaves the grid / ends in a sink before meeting the outlet**: the end
+cell is the exit code (`-1` or `-2`) and nothing is added up (length 0) -/
+theorem flowPathWith_exit (diag : Int → Int → Bool) {start outlet x : Int} {j nval : Nat}
+    (hr : Reaches codes g [] j start x) (hv : validCell g.nrows g.ncols x = true)
+    (hno : ∀ i, 1 ≤ i → i ≤ j → chainCell codes g i start ≠ outlet)
+    (hneg : downstreamCell codes g x < 0) (hj : j + 1 ≤ nval) :
+    flowPathWith codes g outlet diag nval start = (downstreamCell codes g x, []) := by
+  have h := fpLoop_exit (codes := codes) (g := g) outlet diag j nval
+    { ipath := 0, up := start, down := -1, steps := [] } x hr hv hno hneg hj
+  unfold flowPathWith
+  simp only [h, hneg, if_true]
+
+
+/-! ### the pinned step classification is wrong on 2-column grids only -/
+
+/-- on every grid that does not have exactly 2 columns, `|Δidx| == 1 || |Δidx| == ncols` classifies the
+steps of a chain like the row/column test does -/
+theorem isDiagPinned_eq_isDiag (ht : TableOK codes) (hc : 0 < g.ncols) (h2 : g.ncols ≠ 2) {c : Int}
+    (hv : validCell g.nrows g.ncols c = true) (h0 : 0 ≤ downstreamCell codes g c) :
+    isDiagPinned g.ncols c (downstreamCell codes g c) = isDiag g.ncols c (downstreamCell codes g c) := by
+  obtain ⟨dx, dy, hx, hy, hcen, ex, ey⟩ := step_rowcol ht h0
+  have hvd := downstreamCell_nonneg_valid ht h0
+  obtain ⟨_, _, k0, k1, hcc⟩ := valid_rowcol hc hv
+  obtain ⟨_, _, l0, l1, hcd⟩ := valid_rowcol hc hvd
+  unfold cellOf at hcc hcd
+  rw [ex] at l0 l1
+  have e : downstreamCell codes g c - c = dy * g.ncols + dx := by
+    rw [ey, ex] at hcd
+    linear_combination hcc - hcd
+  unfold isDiag isDiagPinned
+  rw [e, ex, ey]
+  clear hcc hcd e ex ey hvd
+  generalize colOf g.ncols c = K at *
+  generalize rowOf g.ncols c = R at *
+  generalize g.ncols = n at *
+  rw [Bool.eq_iff_iff]
+  simp only [Bool.not_eq_true', Bool.or_eq_false_iff, decide_eq_false_iff_not, Bool.and_eq_true,
+    bne_iff_ne, ne_eq]
+  rcases hx with rfl | rfl | rfl <;> rcases hy with rfl | rfl | rfl <;> omega
 
 end HydroVerif.C06
